@@ -3,9 +3,9 @@ import vlib
 CFG = dict(
     imports=["From Verif.C31 Require Import Model Spec Split."],
     checker="check_any",
-    n=dict(quick=150, thorough=3000),
-    shard=50,
-    rule="16 splitter cases (splitIPSetUpdate / splitIPSetDeltaUpdate on run-length encoded member lists of 0 .. 3x MaxMembersPerMessage "
+    n=dict(quick=110, thorough=3000),
+    shard=31,
+    rule="14 splitter cases (splitIPSetUpdate / splitIPSetDeltaUpdate on run-length encoded member lists of 0 .. 3x MaxMembersPerMessage "
          "members, compared with the chunking model and a completeness oracle), then two scripted scenarios (every rule field referencing an IP set, reference changes under a connected workload, "
          "join before the endpoint exists, re-join, endpoint removed while connected) followed by random "
          "histories of 12-35 operations (joins/leaves with fresh and stale join UIDs, re-joins over a live connection, "
@@ -22,7 +22,8 @@ CFG = dict(
                  "calculation-graph contract Spec.valid (readable: Spec.listed_once = tiers disjoint, no repeat in an ingress list): policies/profiles are sent before endpoints that list them and removed only "
                  "when unused, IP sets likewise w.r.t. policies/profiles, an endpoint lists a policy once, join UIDs are non-zero",
                  "in the Processor model IP set updates carry fewer than MaxMembersPerMessage (82200) members (the splitters themselves are modelled, proved complete and compared with the code separately, Split.v)",
-                 "a single IPSetDeltaUpdate never adds and removes the same member (needed for c31_split_delta_complete_partial)",
+                 "a single IPSetDeltaUpdate never adds and removes the same member (Chunked.op_ok; needed only for c31_split_delta_complete and the c31_chunked_* theorems)",
+                 "chunked streams: the real Processor is not driven with sets above 82200 members (the model members are unary nats); the chunked theorems are tied to the code through the Processor correspondence below that size, the splitter correspondence above it, and the three call sites sendIPSetUpdate/handleIPSetUpdate/handleIPSetDeltaUpdate",
                  "proto payloads are not mutated after being handed to the Processor"],
 )
 
